@@ -401,3 +401,13 @@ func parseValue(toks []string) (uint64, bool) {
 	}
 	return 0, false
 }
+
+// Raw sends SMT-LIB2 text after everything pending and returns the solver's output.
+// Callers keep the assertion stack balanced themselves (push/pop inside the text).
+func (s *Solver) Raw(cmds string) string {
+	start := time.Now()
+	defer func() { s.Time += time.Since(start) }()
+	s.Queries++
+	s.send(cmds)
+	return s.exchange()
+}
